@@ -47,7 +47,7 @@ impl Oracle for C15Oracle {
             return;
         }
         let Some(pre) = pre else { return };
-        if pre.kind == Kind::Zc {
+        if pre.kind.is_zc() {
             return;
         }
         let w = pre.w();
@@ -86,6 +86,9 @@ impl Oracle for C15Oracle {
                 }
             }
             "reload" => {
+                if ans == "panic" {
+                    rec.fail("reload_panics", &detail());
+                }
                 if ans == "ok" {
                     // whatever reload read is what a decode would read; take it from the bytes
                     self.val = Some(post.data[w.min(post.data.len())..].to_vec());
@@ -108,12 +111,17 @@ impl Oracle for C15Oracle {
                     rec.fail("failed_close_wrote", &detail());
                 }
             }
-            "cleanup" | "serialize" | "refund" => {
+            "cleanup" | "serialize" | "refund" | "normalize" | "receive" | "refund_c" | "normalize_c" | "receive_c" | "refund_cm" | "normalize_cm" | "receive_cm" => {
                 let guards = pre.writable && pre.owner == pre.prog_id && pre.data.len() > w;
-                match (&self.val, guards) {
+                // every variant performs the write-back, except that `ReceiveRent(())` / `RefundRent(())` look the
+                // cache up first (and stop there when it is empty)
+                let reaches_write_back = !matches!(t[0], "receive_cm" | "refund_cm");
+                // failures of the cache / lamports side, which say nothing about the write-back
+                let side_err = ans == "err:InsufficientFunds" || (t[0].ends_with("_cm") && (ans == "err:Custom1004" || ans == "err:Custom1005"));
+                match (&self.val, guards && reaches_write_back) {
                     (Some(v), true) if self.have_wrapper => {
                         let new_len = w + v.len();
-                        if ans == "ok" || ans == "err:InsufficientFunds" {
+                        if ans == "ok" || side_err {
                             let mut want = pre.data[..w].to_vec();
                             want.extend_from_slice(v);
                             if post.data.len() != new_len {
@@ -140,7 +148,7 @@ impl Oracle for C15Oracle {
                         if post.data != pre.data || post.owner != pre.owner {
                             rec.fail("written_when_guard_false", &detail());
                         }
-                        if ans != "ok" && ans != "err:InsufficientFunds" {
+                        if ans != "ok" && !side_err {
                             rec.fail("cleanup_fails", &detail());
                         }
                     }
@@ -168,6 +176,7 @@ const NAMES: &[&str] = &["", "a", "hi", "counter", "héllo ✓ 𝄞", "\u{7ff}\u
 
 fn gen_value(kind: Kind, rng: &mut Rng, big: bool) -> Vec<u8> {
     match kind {
+        Kind::Unit => vec![],
         Kind::Fix => borsh::to_vec(&RefFix { a: rng.next() as u16, b: rng.next() as u8 }).unwrap(),
         _ => {
             let n = if big {
@@ -191,6 +200,7 @@ fn check_codec_hyp(rec: &mut Recorder, kind: Kind, ser: &[u8]) {
             && T::try_from_slice(&borsh::to_vec(&v).unwrap()).map(|x| x == v).unwrap_or(false)
     }
     let ok = match kind {
+        Kind::Unit => chk::<p8::Unit>(ser),
         Kind::Fix => chk::<p8::Fix>(ser),
         _ => chk::<p8::Var>(ser),
     };
@@ -245,7 +255,7 @@ pub fn run(args: &Args) {
     }
     let mut rng = Rng::new(args.seed);
     let thorough = args.thorough();
-    let types: Vec<usize> = (0..d.it.table.len()).filter(|i| d.it.table[*i].kind != Kind::Zc).collect();
+    let types: Vec<usize> = (0..d.it.table.len()).filter(|i| !d.it.table[*i].kind.is_zc()).collect();
     let other = hx_native::key_from(99).to_bytes();
     let entry = |d: &Driver<C15Oracle>, ti: usize| {
         let e = &d.it.table[ti];
@@ -282,7 +292,8 @@ pub fn run(args: &Args) {
                 d.op("serialize");
                 d.op("bytes");
             }
-            d.op(if rng.chance(1, 5) { "refund" } else { "cleanup" });
+            let cl: &str = *rng.pick(&["cleanup", "cleanup", "cleanup", "refund", "normalize", "receive", "refund_c", "normalize_c", "receive_c", "normalize_cm"]);
+            d.op(cl);
             d.op("bytes");
             changed |= d.it.core().unwrap().data() != before;
             d.op("client");
@@ -324,7 +335,9 @@ pub fn run(args: &Args) {
             d.op("cleanup");
             d.op("bytes");
             d.op("serialize");
-            d.op("refund");
+            for o in ["refund", "normalize", "receive", "refund_c", "normalize_c", "receive_c", "refund_cm", "normalize_cm", "receive_cm"] {
+                d.op(o);
+            }
             d.op("bytes");
             d.op("client");
             d.op("reload");
@@ -413,6 +426,42 @@ pub fn run(args: &Args) {
         }
     }
 
+    // 2b. EVERY cleanup variant after a size-changing value change (grow / shrink), then a second variant in the same
+    //     instruction after another change (the rent top-up path: a System Transfer CPI through the funder)
+    const CLEANUPS: &[&str] = &["cleanup", "refund", "normalize", "receive", "refund_c", "normalize_c", "receive_c", "refund_cm", "normalize_cm", "receive_cm"];
+    for &ti in &types {
+        let (kind, pid, disc) = entry(&d, ti);
+        for (ci, op) in CLEANUPS.iter().enumerate() {
+            for grow in [true, false] {
+                let small = gen_value(kind, &mut rng, false);
+                let large = if kind == Kind::Var { borsh::to_vec(&RefVar { tag: ci as u8, bytes: rng.bytes(300 + ci), name: "grown".into() }).unwrap() } else { gen_value(kind, &mut rng, false) };
+                let (v0, v1) = if grow { (small.clone(), large.clone()) } else { (large.clone(), small.clone()) };
+                check_codec_hyp(&mut d.rec, kind, &v1);
+                id += 1;
+                d.case(&format!("case {id} variant {} w{} {op} grow{}", kind.name(), disc.len(), grow as u8));
+                let l = setup_line(&d.it.table[ti], &pid, true, &live_data(&disc, &v0));
+                d.op(&l);
+                d.op("decode");
+                d.op(&format!("set {}", hex(&v1)));
+                d.op(op);
+                d.op("bytes");
+                d.op("client");
+                // a second change and a second (different) variant in the same instruction
+                d.op(&format!("mutate {}", hex(&v0)));
+                d.op(CLEANUPS[(ci + 3) % CLEANUPS.len()]);
+                d.op("bytes");
+                d.op(&format!("set {}", hex(&large)));
+                d.op(CLEANUPS[(ci + 2) % CLEANUPS.len()]);
+                d.op("bytes");
+                d.op("next");
+                d.op("decode");
+                d.op("client");
+                d.rec.mark_nontrivial();
+                d.rec.bump("kind:variant");
+            }
+        }
+    }
+
     // 3. raw account bytes: truncated / trailing / bad length prefixes / invalid UTF-8 behind a right or wrong discriminant
     let n_raw = if thorough { 40_000 } else { 4_200 };
     for r in 0..n_raw {
@@ -494,7 +543,7 @@ pub fn run(args: &Args) {
                 9 => "get".to_string(),
                 10..=12 => "cleanup".to_string(),
                 13 => "serialize".to_string(),
-                14 => "refund".to_string(),
+                14 => rng.pick(&["refund", "normalize", "receive", "refund_c", "normalize_c", "receive_c", "refund_cm", "normalize_cm", "receive_cm"]).to_string(),
                 15 => "next".to_string(),
                 16 => "client".to_string(),
                 17 => match rng.below(5) {
@@ -521,5 +570,6 @@ pub fn run(args: &Args) {
         d.rec.mark_nontrivial();
         d.rec.bump("kind:random");
     }
+    d.rec.extra.insert("fund_rent_transfer_cpis".into(), hx_common::json!(crate::ops::CPI_TRANSFERS.load(std::sync::atomic::Ordering::Relaxed)));
     d.rec.finish(args);
 }
